@@ -27,6 +27,7 @@ theorem next_eq (s : MovingAverageConvergenceDivergence F) (x : F) :
                   (Scalar.sub (ExponentialMovingAverage.step s.fast_ema x).current
                               (ExponentialMovingAverage.step s.slow_ema x).current)).current }) := by
   unfold next
+  try simp only [gen_helper]
   simp [ExponentialMovingAverage.next_eq]
 
 /-- the same statement with the intermediate values named -/
@@ -43,6 +44,7 @@ theorem next_eq_let (s : MovingAverageConvergenceDivergence F) (x : F) :
 theorem nextBar_eq (s : MovingAverageConvergenceDivergence F) (b : Bar F) :
     s.nextBar b = s.next b.close := by
   unfold nextBar
+  try simp only [gen_helper]
   cases h : s.next b.close <;> simp [h]
 
 theorem next_total (s : MovingAverageConvergenceDivergence F) (x : F) (h : WF s) :
